@@ -3290,6 +3290,8 @@ impl LineBuf {
 						.map(|s| s.to_string())
 						.unwrap_or_default()
 				};
+				// A line in a register always carries its newline, also when it was the unterminated last line
+				let line_content = if line_content.is_empty() || line_content.ends_with('\n') { line_content } else { line_content + "\n" };
 				RegisterContent::Line(line_content)
 			}
 			MotionKind::LineRange(start,end) => {
@@ -3308,6 +3310,8 @@ impl LineBuf {
 						.map(|s| s.to_string())
 						.unwrap_or_default()
 				};
+				// A line in a register always carries its newline, also when it was the unterminated last line
+				let line_content = if line_content.is_empty() || line_content.ends_with('\n') { line_content } else { line_content + "\n" };
 				RegisterContent::Line(line_content)
 			}
 			_ => {
@@ -3538,6 +3542,10 @@ impl LineBuf {
 				};
 				match motion {
 					MotionKind::Line(n) => {
+							if n >= self.line_count() {
+								// There is no such line to put after
+								return Ok(())
+							}
 							let Some((start,end)) = self.line_bounds(n) else { return Ok(()) };
 							let insert_idx = match anchor {
 								Anchor::After => end,
